@@ -44,6 +44,11 @@ pub enum Op {
     StreamMany,
     StreamWithError,
     StructFields,
+    /// the three above in raw-number mode (numbers keep their text: one more kind of node that
+    /// must live in the arena and not in the caller's input)
+    DeserializeManyRaw,
+    StreamManyRaw,
+    StructFieldsRaw,
     Drop(usize),
     CloneOnOtherThread(usize),
     DropOnOtherThread(usize),
@@ -55,7 +60,7 @@ const MAX_LIVE: usize = 5;
 
 pub fn ops() -> Vec<Op> {
     use Op::*;
-    let mut v = vec![Parse(0), Parse(1), DeserializeMany, DeserializeWithError, StreamMany, StreamWithError, StructFields];
+    let mut v = vec![Parse(0), Parse(1), DeserializeMany, DeserializeWithError, StreamMany, StreamWithError, StructFields, DeserializeManyRaw, StreamManyRaw, StructFieldsRaw];
     for i in 0..2 {
         v.push(CloneSub(i, Sel::Root));
         v.push(CloneSub(i, Sel::A));
@@ -288,6 +293,58 @@ pub fn apply(op: &Op, live: &mut Vec<Value>, model: &mut Vec<R>) -> Result<(), S
             if live.len() + 2 <= MAX_LIVE {
                 let text = format!("{{\"x\":{},\"y\":{}}}", DOCS[0], DOCS[1]);
                 let t: Two = sonic_rs::from_str(&text).map_err(|e| e.to_string())?;
+                drop(text);
+                let Two { x, y } = t;
+                live.push(y);
+                live.push(x);
+                model.push(fence::unarmed(|| model_of(DOCS[1])));
+                model.push(fence::unarmed(|| model_of(DOCS[0])));
+            }
+        }
+        Op::DeserializeManyRaw => {
+            if live.len() + 2 <= MAX_LIVE {
+                let text = format!("{} {} 12.50", DOCS[0], DOCS[1]);
+                let mut de = Deserializer::from_str(&text).use_rawnumber();
+                let a: Value = de.deserialize().map_err(|e| e.to_string())?;
+                let b: Value = de.deserialize().map_err(|e| e.to_string())?;
+                let c: Value = de.deserialize().map_err(|e| e.to_string())?;
+                drop(de);
+                drop(text);
+                if c.as_raw_number().map(|n| n.as_str().to_string()).as_deref() != Some("12.50") {
+                    return Err("third (raw number) value of the deserializer is wrong".into());
+                }
+                drop(c);
+                live.push(a);
+                live.push(b);
+                model.push(fence::unarmed(|| model_of(DOCS[0])));
+                model.push(fence::unarmed(|| model_of(DOCS[1])));
+            }
+        }
+        Op::StreamManyRaw => {
+            if live.len() + 2 <= MAX_LIVE {
+                let text = format!("7 {}\n{}", DOCS[1], DOCS[0]);
+                let mut st = Deserializer::from_str(&text).use_rawnumber().into_stream::<Value>();
+                let first = st.next().ok_or("stream ended")?.map_err(|e| e.to_string())?;
+                let a = st.next().ok_or("stream ended")?.map_err(|e| e.to_string())?;
+                let b = st.next().ok_or("stream ended")?.map_err(|e| e.to_string())?;
+                drop(st);
+                drop(text);
+                if first.as_raw_number().map(|n| n.as_str().to_string()).as_deref() != Some("7") {
+                    return Err("first (raw number) value of the stream is wrong".into());
+                }
+                drop(first);
+                live.push(b);
+                live.push(a);
+                model.push(fence::unarmed(|| model_of(DOCS[0])));
+                model.push(fence::unarmed(|| model_of(DOCS[1])));
+            }
+        }
+        Op::StructFieldsRaw => {
+            if live.len() + 2 <= MAX_LIVE {
+                let text = format!("{{\"x\":{},\"y\":{}}}", DOCS[0], DOCS[1]);
+                let mut de = Deserializer::from_str(&text).use_rawnumber();
+                let t: Two = de.deserialize().map_err(|e| e.to_string())?;
+                drop(de);
                 drop(text);
                 let Two { x, y } = t;
                 live.push(y);
